@@ -2516,7 +2516,7 @@ class LocalContract(DMRGContract):
         if name == "__getitem__" and is_tn(args[0]) and is_int(args[1]):
             return Handle(args[0], args[1])
         if name == "__getitem__" and isinstance(args[0], EffNet) and isinstance(args[1], str):
-            return EffNet(args[0].kind, args[0].contracted) if False else NS(eff_tensor=args[0], tag=args[1])
+            return NS(eff_tensor=args[0], tag=args[1])  # the tensor(s) of the effective network selected by a tag
         if name == "__getitem__" and isinstance(args[0], Opaque):
             return cx.Opaque("item")
         if name == "__getslice__" and is_tn(args[0]):
